@@ -62,6 +62,10 @@ GRAPHS = [
                                            ("b", ["d"])]),
     dict(v={"a": 1, "b": 1, "c": 2}, nets=[("a", ["c"]), ("b", ["c"]),
                                            ("c", ["a", "b"])]),
+    # "n" needs nothing and has no endpoint: it is placed and listed as a
+    # sink (after a sink that has cores) but nothing is delivered for it
+    dict(v={"a": 1, "b": 2, "n": None}, nets=[("a", ["b", "n"]),
+                                              ("b", ["n", "a"])]),
 ]
 GRAPHS4 = [
     dict(v={"a": 1, "b": 1, "c": 1, "e": 1},
@@ -248,7 +252,7 @@ def feasible_placements(verts, chips, pinned):
             continue
         use = {}
         for v, c in pl.items():
-            use[c] = use.get(c, 0) + verts[v]
+            use[c] = use.get(c, 0) + (verts[v] or 0)
         if all(u <= CAP - 1 for u in use.values()):
             yield pl
 
@@ -284,7 +288,7 @@ def run_pipeline(case, acc, m, graph, pl, cfg, tier, ch):
     # a device vertex needs no cores: declared with no resources at all or
     # (configurations with radius 1) with an explicit zero
     dev_res = {Cores: 0} if cfg["radius"] == 1 else {}
-    vr = {v: ({Cores: n} if n else dict(dev_res))
+    vr = {v: ({Cores: n} if n else ({} if n is None else dict(dev_res)))
           for v, n in graph["v"].items()}
     nets, net_keys = build_problem(graph, cfg["keys"])
     cons = [ReserveResourceConstraint(Cores, slice(0, 1))]
